@@ -11,3 +11,4 @@ import WowVerif.Props.C08
 #print axioms Wv.C08.listing_is_union
 #print axioms Wv.C08.patched_read_verified
 #print axioms Wv.C08.unreadable_patch_is_error
+#print axioms Wv.C08.listed_iff_found
